@@ -20,8 +20,132 @@ fn main() {
     let args = run::parse_args();
     match args.mode.clone() {
         Mode::Parent => parent(&args),
+        Mode::Child(k) if k == "raw" => child_raw(&args),
         Mode::Child(k) => child(&args, k == "evil"),
         Mode::Replay(p) => run::replay(ID, &p),
+    }
+}
+
+/// Monitor-free race for the interpreter / sanitizer layers: the racing threads share nothing but
+/// the library (no stamps, no chaos hook bookkeeping, collectors that only count with relaxed
+/// atomics).  Emitters hit fresh callsites for the first time under a scoped default of their
+/// own; another thread creates and drops collectors with varying hints and rebuilds the interest
+/// cache.  The only oracle besides the tool: nothing is counted more often than it was emitted.
+fn child_raw(args: &Args) {
+    use std::sync::atomic::{AtomicU64, Ordering};
+    use tracing_core::{span, Collect, Dispatch, Event, LevelFilter, Metadata};
+    struct Counting {
+        hint: Option<LevelFilter>,
+        events: AtomicU64,
+        registered: AtomicU64,
+    }
+    impl Collect for Counting {
+        fn register_callsite(&self, _: &'static Metadata<'static>) -> tracing_core::collect::Interest {
+            self.registered.fetch_add(1, Ordering::Relaxed);
+            tracing_core::collect::Interest::sometimes()
+        }
+        fn enabled(&self, m: &Metadata<'_>) -> bool {
+            self.hint.map(|h| *m.level() <= h).unwrap_or(true)
+        }
+        fn max_level_hint(&self) -> Option<LevelFilter> {
+            self.hint
+        }
+        fn new_span(&self, _: &span::Attributes<'_>) -> span::Id {
+            span::Id::from_u64(1)
+        }
+        fn record(&self, _: &span::Id, _: &span::Record<'_>) {}
+        fn record_follows_from(&self, _: &span::Id, _: &span::Id) {}
+        fn event(&self, _: &Event<'_>) {
+            self.events.fetch_add(1, Ordering::Relaxed);
+        }
+        fn enter(&self, _: &span::Id) {}
+        fn exit(&self, _: &span::Id) {}
+        fn current_span(&self) -> tracing_core::span::Current {
+            tracing_core::span::Current::none()
+        }
+    }
+    let mut out = Out::new();
+    let scen = args.get_u64("scen", 4);
+    let fresh = vcs::Fresh::new();
+    for sidx in 0..scen {
+        let mut rng = Rng::derive(args.seed ^ 0xC04E, args.shard, sidx);
+        let nemit = 1 + rng.usize(2);
+        let rounds = 3 + rng.usize(4);
+        let hints = [None, Some(LevelFilter::ERROR), Some(LevelFilter::INFO), Some(LevelFilter::TRACE)];
+        let mut sites: Vec<Vec<&'static vcs::Cs>> = vec![];
+        for _ in 0..nemit {
+            sites.push((0..rounds).filter_map(|_| fresh.take(1 + rng.usize(5), rng.usize(4), vcs::Kind::Event)).collect());
+        }
+        let counters: Vec<std::sync::Arc<Counting>> = (0..nemit).map(|i| std::sync::Arc::new(Counting { hint: hints[(i + sidx as usize) % 4], events: AtomicU64::new(0), registered: AtomicU64::new(0) })).collect();
+        let emitted = AtomicU64::new(0);
+        std::thread::scope(|sc| {
+            for (i, my) in sites.iter().enumerate() {
+                let c = counters[i].clone();
+                let emitted = &emitted;
+                sc.spawn(move || {
+                    let d = Dispatch::new(SharedCounting(c));
+                    let _g = tracing_core::dispatch::set_default(&d);
+                    for (k, cs) in my.iter().enumerate() {
+                        let _ = (cs.emit)(k as u64);
+                        emitted.fetch_add(1, Ordering::Relaxed);
+                        std::thread::yield_now();
+                    }
+                });
+            }
+            sc.spawn(|| {
+                for k in 0..rounds {
+                    let d = Dispatch::new(SharedCounting(std::sync::Arc::new(Counting { hint: hints[k % 4], events: AtomicU64::new(0), registered: AtomicU64::new(0) })));
+                    std::thread::yield_now();
+                    if k % 2 == 0 {
+                        tracing_core::callsite::rebuild_interest_cache();
+                    }
+                    drop(d);
+                }
+            });
+        });
+        let got: u64 = counters.iter().map(|c| c.events.load(Ordering::Relaxed)).sum();
+        out.evals += emitted.load(Ordering::Relaxed);
+        out.count("raw_scenarios", 1);
+        out.count("raw_first_hits", emitted.load(Ordering::Relaxed));
+        out.count("raw_events_counted", got);
+        if got > emitted.load(Ordering::Relaxed) {
+            out.violation("more events were delivered than were emitted", json!({"kind": "raw", "scenario": sidx, "emitted": emitted.load(Ordering::Relaxed), "counted": got}));
+        }
+        out.distinct_str(&format!("raw|e{nemit}|r{rounds}"));
+    }
+    out.emit();
+}
+struct SharedCounting<T>(std::sync::Arc<T>);
+impl<T: tracing_core::Collect> tracing_core::Collect for SharedCounting<T> {
+    fn register_callsite(&self, m: &'static tracing_core::Metadata<'static>) -> tracing_core::collect::Interest {
+        self.0.register_callsite(m)
+    }
+    fn enabled(&self, m: &tracing_core::Metadata<'_>) -> bool {
+        self.0.enabled(m)
+    }
+    fn max_level_hint(&self) -> Option<tracing_core::LevelFilter> {
+        self.0.max_level_hint()
+    }
+    fn new_span(&self, a: &tracing_core::span::Attributes<'_>) -> tracing_core::span::Id {
+        self.0.new_span(a)
+    }
+    fn record(&self, s: &tracing_core::span::Id, r: &tracing_core::span::Record<'_>) {
+        self.0.record(s, r)
+    }
+    fn record_follows_from(&self, a: &tracing_core::span::Id, b: &tracing_core::span::Id) {
+        self.0.record_follows_from(a, b)
+    }
+    fn event(&self, e: &tracing_core::Event<'_>) {
+        self.0.event(e)
+    }
+    fn enter(&self, s: &tracing_core::span::Id) {
+        self.0.enter(s)
+    }
+    fn exit(&self, s: &tracing_core::span::Id) {
+        self.0.exit(s)
+    }
+    fn current_span(&self) -> tracing_core::span::Current {
+        self.0.current_span()
     }
 }
 
@@ -37,6 +161,9 @@ fn parent(args: &Args) {
     // re-entrant collector class: one scenario per process (a deadlock ends the process)
     let nevil = args.get_u64("evil", args.tier.pick(96, 1600));
     let ends = run::run_children(args, &ChildSpec::new("evil", nevil).arg("scen", 1).timeout(120), &mut out);
+    run::classify_ends(&ends, &mut out, true);
+    let nraw = args.get_u64("raw", args.tier.pick(32, 320));
+    let ends = run::run_children(args, &ChildSpec::new("raw", nraw).arg("scen", 24).timeout(240), &mut out);
     run::classify_ends(&ends, &mut out, true);
     let mut extra = Map::new();
     // pair-order coverage summary: for every unordered pair of sites seen on two threads, were both orders seen?
